@@ -8,28 +8,33 @@
 (* harness reports what the pool looked like then.  Every behaviour is padded *)
 (* to Depth commands and printed as one JSON line.                            *)
 EXTENDS MuxPool, Sequences, Json
-CONSTANT Depth
+CONSTANTS Depth,
+          Loop    \* TRUE: schedules for two REAL pools connected over loopback (establisher <-> receiver): the peer is always
+                  \* reachable and well-behaved (dial / session / ping succeed at once, unrecorded), a dial parked when the
+                  \* context ends fails (what establisher.go / receiver.go do); only session kills and Cancel are commands
 VARIABLES hist, healing, healed
 sv == <<hist, healing, healed>>
 Cmd(r) == hist' = Append(hist, r)
 SimInit == Init /\ hist = <<>> /\ healing = FALSE /\ healed = FALSE
 Benign == DialOk \/ SessOk \/ PingOk
 EnvStep ==
-  \/ (DialOk /\ Cmd([a |-> "DialOk", c |-> nextId + 1]))
-  \/ (DialFail /\ Cmd([a |-> "DialFail", c |-> 0]))
-  \/ (SessOk /\ Cmd([a |-> "SessOk", c |-> held]))
-  \/ (SessErr /\ Cmd([a |-> "SessErr", c |-> held]))
-  \/ (PingOk /\ Cmd([a |-> "PingOk", c |-> held]))
-  \/ (\E k \in Kinds : PingFail(k) /\ Cmd([a |-> "PingFail", c |-> held, kind |-> k]))
+  \/ (~Loop /\ DialOk /\ Cmd([a |-> "DialOk", c |-> nextId + 1]))
+  \/ (~Loop /\ DialFail /\ Cmd([a |-> "DialFail", c |-> 0]))
+  \/ (~Loop /\ SessOk /\ Cmd([a |-> "SessOk", c |-> held]))
+  \/ (~Loop /\ SessErr /\ Cmd([a |-> "SessErr", c |-> held]))
+  \/ (~Loop /\ PingOk /\ Cmd([a |-> "PingOk", c |-> held]))
+  \/ (~Loop /\ \E k \in Kinds : PingFail(k) /\ Cmd([a |-> "PingFail", c |-> held, kind |-> k]))
   \/ (\E c \in Conn : PeerClose(c) /\ Cmd([a |-> "PeerClose", c |-> c]))
   \/ (\E c \in Conn : LocalClose(c) /\ Cmd([a |-> "LocalClose", c |-> c]))
   \/ (Cancel /\ Cmd([a |-> "Cancel", c |-> 0]))
-HealStart == /\ running /\ ~healing /\ ~healed /\ ppc \in {"conn", "acq"} /\ nextId + N <= MaxConn
+HealStart == /\ ~Loop /\ running /\ ~healing /\ ~healed /\ ppc \in {"conn", "acq"} /\ nextId + N <= MaxConn
              /\ healing' = TRUE /\ healed' = TRUE /\ Cmd([a |-> "Heal", c |-> 0]) /\ UNCHANGED vars
-Pad == ~ENABLED Env /\ ~ENABLED HealStart /\ Cmd([a |-> "Pad", c |-> 0]) /\ UNCHANGED <<vars, healing, healed>>
+Pad == ~ENABLED EnvStep /\ ~ENABLED HealStart /\ Cmd([a |-> "Pad", c |-> 0]) /\ UNCHANGED <<vars, healing, healed>>
 SimNext ==
   /\ Len(hist) < Depth
   /\ IF ENABLED Internal THEN Internal /\ UNCHANGED sv
+     ELSE IF Loop /\ running /\ ENABLED Benign THEN Benign /\ UNCHANGED sv
+     ELSE IF Loop /\ ~running /\ ppc = "conn" THEN DialFail /\ UNCHANGED sv
      ELSE IF healing THEN (IF ENABLED Benign THEN Benign /\ UNCHANGED sv
                            ELSE healing' = FALSE /\ UNCHANGED <<vars, hist, healed>>)
      ELSE (EnvStep /\ UNCHANGED <<healing, healed>>) \/ HealStart \/ Pad
